@@ -18,7 +18,7 @@ ID = 'C11'
 
 MANIFEST = dict(
     technique='explicit-state enumeration of a region-polygon x baseline lattice on the real assign_lines_to_regions, and of all option combinations of the real LayoutExtractor.process_page / TextlineExtractorSimple with stub detectors; geometric oracle on the outputs',
-    text='Bounded exhaustive: every set of 1-2 (quick) / 1-3 (thorough) regions over a 10-polygon alphabet (convex, concave, self-intersecting, self-touching, nested, overlapping, disjoint) x every set of 1-3 baselines over a 13-line alphabet (about 16 000 / 58 000 configurations). Every placed line must lie inside its region with a baseline that is a piece of the detected one and an outline clipped to the region; wholly-inside lines longer than 2 px must be placed unchanged, untouched regions get nothing, multiple entries keep the longest piece, and all ids of a page are distinct (also as keys of the logits dictionary). All 16 option combinations of the layout extractor with a stub detector and the simple text-line extractor are driven through the same oracle. Added sub-sweeps: detections held as int32 / int64 / float32 arrays, a self-touching region, MERGE_LINES scenarios (a three-fragment row, zero heights, tilted text with nothing to merge) and the coverage clause for merged lines.',
+    text='Bounded exhaustive: every set of 1-2 (quick) / 1-3 (thorough) regions over a 10-polygon alphabet (convex, concave, self-intersecting, self-touching, nested, overlapping, disjoint) x every set of 1-3 baselines over a 13-line alphabet (about 16 000 / 58 000 configurations). Every placed line must lie inside its region with a baseline that is a piece of the detected one and an outline clipped to the region; wholly-inside lines longer than 2 px must be placed unchanged, untouched regions get nothing, multiple entries keep the longest piece, and all ids of a page are distinct (also as keys of the logits dictionary). All 16 option combinations of the layout extractor with a stub detector and the simple text-line extractor are driven through the same oracle. Added sub-sweeps: detections held as int32 / int64 / float32 arrays, a self-touching region, MERGE_LINES scenarios (a three-fragment row, zero heights, tilted text with nothing to merge) and the coverage clause for merged lines. Baselines of 2 x 2 px extent that are longer than 2 px (diagonal, hook).',
     note='For invalid (self-intersecting / self-touching) region polygons the convex hull is the reference shape (that is what the code documents); a baseline that additionally touches the region in isolated points may be placed or not.',
     ref='3/C11')
 
